@@ -653,9 +653,12 @@ def read_regions(ds):
     (AbstractAlignmentStorage.alignment_is_not_adjacent): list of (start, end) 1-based closed"""
     import re
     per = {}
-    for r in ds.reads:
-        ln = sum(int(n) for n, op in re.findall(r"(\d+)([MDN=X])", r["cigar"]))
-        per.setdefault(r["chr"], []).append((r["start0"] + 1, r["start0"] + ln))
+    if hasattr(ds, "alignment_intervals"):
+        per = ds.alignment_intervals()
+    else:
+        for r in ds.reads:
+            ln = sum(int(n) for n, op in re.findall(r"(\d+)([MDN=X])", r["cigar"]))
+            per.setdefault(r["chr"], []).append((r["start0"] + 1, r["start0"] + ln))
     res = {}
     for c, l in per.items():
         l.sort()
@@ -705,6 +708,14 @@ def check_outputs(ds, files, with_annotation, fai):
                 kind = "gene_range_across_calls"
                 det = dict(det, gene_first_region=r0, transcript_region=r1)
         fails.append((kind, det))
+    if with_annotation:
+        rg0 = {g["gene_id"]: g for g in ds.genes}
+        for r in tm:
+            if r["feature"] == "gene" and r["attrs"]["gene_id"] in rg0:
+                g = rg0[r["attrs"]["gene_id"]]
+                if r["chr"] != g["chr"] or r["strand"] != g["strand"]:
+                    fails.append(("reference_gene_changed", "transcript_models: gene %s printed on %s%s, annotated on %s%s"
+                                  % (r["attrs"]["gene_id"], r["chr"], r["strand"], g["chr"], g["strand"])))
     tmt = tx_table(tm)
     for t, v in tmt.items():
         if t in ref and v != ref[t]:
@@ -735,7 +746,8 @@ def check_outputs(ds, files, with_annotation, fai):
             if r["feature"] == "gene" and r["attrs"]["gene_id"] in rg:
                 g = rg[r["attrs"]["gene_id"]]
                 if r["chr"] != g["chr"] or r["strand"] != g["strand"]:
-                    fails.append(("reference_gene_changed", r["attrs"]["gene_id"]))
+                    fails.append(("reference_gene_changed", "extended_annotation: gene %s printed on %s%s, annotated on %s%s"
+                                  % (r["attrs"]["gene_id"], r["chr"], r["strand"], g["chr"], g["strand"])))
     # assumption interface monitor: chromosome blocks in natural order
     return fails
 
@@ -767,9 +779,57 @@ CONFIGS_MORE = [
 ]
 
 
+class ToyData:
+    """the repository's own toy data (tests/simple_data: chr9.4M, simulated ONT reads) behind the interface of
+    gen.synth.Dataset that the validator uses (genes, chroms, write, alignment intervals)"""
+
+    def __init__(self):
+        self.src = P.TOY
+        self.genes = []
+        self.chroms = {}
+        self._intervals = None
+
+    def write(self, d):
+        paths = P.copy_toy(d)
+        import pysam
+        pysam.faidx(paths["ref"])
+        fai = paths["ref"] + ".fai"
+        with open(fai) as f:
+            for l in f:
+                self.chroms[l.split("\t")[0]] = int(l.split("\t")[1])
+        by_gene = {}
+        tx = {}
+        for r in P.parse_gtf(paths["gtf"]):
+            a = r["attrs"]
+            if r["feature"] == "gene":
+                by_gene[a["gene_id"]] = {"chr": r["chr"], "gene_id": a["gene_id"], "strand": r["strand"], "transcripts": []}
+            elif r["feature"] in ("transcript", "mRNA"):
+                tx[a["transcript_id"]] = (a["gene_id"], [])
+            elif r["feature"] == "exon":
+                tx[a["transcript_id"]][1].append((r["start"], r["end"]))
+        for tid, (gid, ex) in tx.items():
+            if ex and gid in by_gene:
+                by_gene[gid]["transcripts"].append((tid, sorted(ex)))
+        self.genes = [g for g in by_gene.values() if g["transcripts"]]
+        per = {}
+        with pysam.AlignmentFile(paths["bam"], "rb") as bam:
+            for al in bam:
+                if al.reference_id >= 0 and al.reference_end:
+                    per.setdefault(al.reference_name, []).append((al.reference_start + 1, al.reference_end))
+        self._intervals = per
+        return paths
+
+    def alignment_intervals(self):
+        return self._intervals
+
+
 def build_dataset(spec):
     if spec["gen"] == "split_witness":
         return split_witness_dataset(), {"split_genes": ["G1"]}
+    if spec["gen"] == "toy":
+        return ToyData(), {}
+    if spec["gen"] == "antisense":
+        return G.antisense_dataset(spec["seed"], reference_antisense=spec.get("reference_antisense", True)), {}
     return G.pipeline_dataset(spec["seed"], n_chroms=spec.get("n_chroms", 3), split_locus=spec.get("split_locus", True),
                               chrom_names=spec.get("chrom_names"))
 
@@ -1010,6 +1070,14 @@ def oracle(ctx, disagreements, broken):
             r = oracle_fl_exons(c)
             if r:
                 _fail(ctx, "novel_exons_malformed", {"level": "fl_exons", "case": c}, r)
+        nj = 0
+        for _ in range(1500 if quick else 15000):
+            c = vlib.canon(joiner_case(rng))
+            nj += 1
+            r = oracle_joiner(c)
+            if r:
+                _fail(ctx, "joiner_mixes_strands", {"level": "joiner", "case": c}, r)
+        ctx.extra["joiner_cases"] = nj
         for _ in range(60 if quick else 600):
             names = G.chr_names(rng)
             c = {"names": names, "contents": [[rng.randint(0, 99) for _ in range(rng.randint(0, 3))] for _ in names]}
@@ -1021,6 +1089,21 @@ def oracle(ctx, disagreements, broken):
     # 4. the real pipeline
     runs = []
     specs = [({"gen": "split_witness"}, CONFIGS_QUICK[0])]
+    # overlapping genes of opposite strands + gene joining (TranscriptToGeneJoiner): the repository's toy data and
+    # synthetic antisense loci, with the strategy that reports every novel transcript, with and without annotation
+    cfg_all = {"data_type": "nanopore", "genedb": True, "strategy": "all", "threads": 2}
+    cfg_all_noann = {"data_type": "nanopore", "genedb": False, "strategy": "all", "threads": 2}
+    specs += [({"gen": "toy"}, cfg_all), ({"gen": "toy"}, cfg_all_noann)]
+    aseed = rng.randrange(10 ** 6)
+    specs += [({"gen": "antisense", "seed": aseed, "reference_antisense": True}, cfg_all),
+              ({"gen": "antisense", "seed": aseed, "reference_antisense": True}, CONFIGS_QUICK[0]),
+              ({"gen": "antisense", "seed": aseed, "reference_antisense": False}, cfg_all_noann)]
+    if not quick:
+        specs += [({"gen": "toy"}, c) for c in (CONFIGS_QUICK[0], CONFIGS_QUICK[1], CONFIGS_QUICK[2])]
+        for _ in range(4):
+            aseed = rng.randrange(10 ** 6)
+            specs += [({"gen": "antisense", "seed": aseed, "reference_antisense": ra}, c)
+                      for ra, c in ((True, cfg_all), (True, CONFIGS_QUICK[2]), (False, cfg_all_noann), (False, CONFIGS_QUICK[4]))]
     configs = list(CONFIGS_QUICK) + ([] if quick else CONFIGS_MORE)
     n_data = 1 if quick else 5
     for k in range(n_data):
@@ -1108,6 +1191,77 @@ def oracle_fl_exons(c):
     return None
 
 
+class FakeJoinGeneInfo:
+    """what TranscriptToGeneJoiner reads from a GeneInfo"""
+
+    def __init__(self, ref):
+        self.gene_strands = {g["gid"]: g["strand"] for g in ref}
+        self._regions = {g["gid"]: tuple(g["region"]) for g in ref}
+        self.gene_id_map = {}
+        self.all_isoforms_introns = {}
+        for g in ref:
+            for tid, introns in g["isoforms"]:
+                self.gene_id_map[tid] = g["gid"]
+                self.all_isoforms_introns[tid] = [tuple(i) for i in introns]
+
+    def get_gene_regions(self):
+        return self._regions
+
+
+def joiner_case(rng):
+    """a locus as construct_fl_isoforms leaves it: reference genes (either strand), novel models attributed to a
+    reference gene (with that gene's strand), and novel genes (one per novel transcript, strand + / - / .) that
+    overlap each other and the reference genes"""
+    base = rng.randint(100, 5000)
+    span = rng.choice([3000, 6000])
+    ref = []
+    for k in range(rng.randint(0, 2)):
+        a = base + rng.randint(0, span // 2)
+        ex = G.sd_exons(rng, n=rng.randint(2, 4), maxc=50)
+        ex = [(x + a, y + a) for x, y in ex]
+        ref.append({"gid": "RG%d" % k, "strand": rng.choice("+-"), "region": (ex[0][0], ex[-1][1]),
+                    "isoforms": [("RT%d" % k, [(ex[i][1] + 1, ex[i + 1][0] - 1) for i in range(len(ex) - 1)])], "exons": ex})
+    models = []
+    for k in range(rng.randint(2, 7)):
+        if ref and rng.random() < 0.3:
+            g = rng.choice(ref)
+            ex = list(g["exons"])
+            ex[-1] = (ex[-1][0], ex[-1][1] + rng.randint(0, 300))
+            models.append({"tid": "transcript%d.c.nnic" % k, "gid": g["gid"], "strand": g["strand"], "exons": ex})
+        else:
+            a = base + rng.randint(0, span)
+            ex = G.sd_exons(rng, n=rng.randint(1, 4), maxc=50)
+            ex = [(x + a, y + a) for x, y in ex]
+            if models and rng.random() < 0.5:       # share an intron chain / overlap strongly with an earlier model
+                ex = list(rng.choice(models)["exons"])
+                ex[0] = (ex[0][0] + rng.randint(0, 5), ex[0][1])
+            models.append({"tid": "transcript%d.c.nnic" % k, "gid": "novel_gene_c_%d" % k,
+                           "strand": rng.choice("++--."), "exons": ex})
+    return {"ref": ref, "models": models}
+
+
+def oracle_joiner(c):
+    """assumption interface `UniformStrands` on the real TranscriptToGeneJoiner: after joining, all models of one gene
+    carry one strand, and a reference gene keeps only models of its annotated strand"""
+    TP, GI, C, GB, FU, IDP = _mods()
+    gi = FakeJoinGeneInfo(c["ref"])
+    storage = [GI.TranscriptModel("c", m["strand"], m["tid"], m["gid"], [tuple(e) for e in m["exons"]],
+                                  GI.TranscriptModelType.novel_not_in_catalog) for m in c["models"]]
+    try:
+        out = GB.TranscriptToGeneJoiner(storage, gi).join_transcripts()
+    except AssertionError:
+        return None     # the joiner refuses the input (its own strand assert): nothing is printed
+    strands = {}
+    for m in out:
+        strands.setdefault(m.gene_id, set()).add(m.strand)
+    for g, st in strands.items():
+        if len(st) > 1:
+            return "gene %s joins transcripts of strands %s" % (g, sorted(st))
+        if g in gi.gene_strands and st != {gi.gene_strands[g]}:
+            return "reference gene %s (%s) received transcripts of strand %s" % (g, gi.gene_strands[g], sorted(st))
+    return None
+
+
 def oracle_merge(c, scratch):
     got = real_merge_order(c["names"], scratch, c["contents"])
     if vlib.is_err(got):
@@ -1137,6 +1291,8 @@ def replay(ctx, failure):
         return oracle_get_exons(inp["case"]) is not None
     if lvl == "fl_exons":
         return oracle_fl_exons(inp["case"]) is not None
+    if lvl == "joiner":
+        return oracle_joiner(inp["case"]) is not None
     if lvl == "merge":
         scratch = vlib.scratch_dir("isoverif_c03r_")
         try:
